@@ -263,7 +263,8 @@ def _rejections(t: Tally):
             "sequence_count": 9}
     cases = []
     for f in FIELDS:
-        for bad in (-1, MAXV[f] + 1, 2 ** 31, -2 ** 31):
+        # beyond either end of the range: by a whole step, by far, and (numbers that are not integers) by half a step
+        for bad in (-1, MAXV[f] + 1, 2 ** 31, -2 ** 31, MAXV[f] + 0.5, -0.5, float(MAXV[f] + 1), float("inf"), float("-inf")):
             cases.append(({**base, f: bad}, b"\x00\x01"))
     for data in (b"", bytes(65537)):
         cases.append((base, data))
@@ -322,7 +323,7 @@ def run(ctx):
                   f"product of {'5' if not ctx.quick else '3'} boundary values of the six fields x {len(lens)} lengths = {len(combos)}; "
                   "decode: every 16-bit value of each header word x 3 settings of the other; accessor caching: every ordered pair of the 9 accessors "
                   "(7 fields, header_values, str) read on a fresh object from both create_ccsds_packet and the framer, over a product of field values with "
-                  "unequal neighbours; rejection: each field at -1, max+1, +-2^31, "
+                  "unequal neighbours; rejection: each field at -1, max+1, +-2^31, max+0.5, -0.5, float(max+1), +-inf, "
                   "data of 0 and 65537 bytes"),
         "rule": ("one evaluation = one construction (with accessor read-back and re-framing) or one decode; distinct non-trivial = "
                  "distinct header-word values / lengths / boundary combinations / rejection cases"),
